@@ -52,6 +52,22 @@ CORPUS = [("CMR", "variation:shutoff=continued_after_10_percent_fed"), ("CMR", "
           ("MUS", "manuscript:recalculate_plot_1:1"), ("KEN", "variation:shutoff=one_month_delayed_shutoff"), ("PAK", "variation:shutoff=one_month_delayed_shutoff")]
 
 
+FINGERPRINTS = os.path.join(os.path.dirname(os.path.dirname(os.path.abspath(__file__))), "data", "preset_fingerprints.json")
+
+
+def fingerprint(p):
+    return json.dumps({"options": {k: p[1][k] for k in sorted(p[1])}, "countries": list(p[2])}, sort_keys=True, default=str)
+
+
+def changed_presets(ctx, presets):
+    try:
+        base = json.load(open(FINGERPRINTS))
+    except Exception:
+        ctx.count("preset-fingerprints-missing")
+        return []
+    return [p for p in presets if base.get(p[0]) != fingerprint(p)]
+
+
 def yaml_presets(repo):
     import yaml
     out = []
@@ -157,6 +173,13 @@ def grid(ctx):
     isos = sorted(pipeline.country_rows())
     jobs = []
     if ctx.quick:
+        # change-directed: a preset whose option set differs from the one the whole grid was last run with (harness/data/preset_fingerprints.json,
+        # written by `harness/props/c16.py --write-fingerprints` after a thorough run) is run for EVERY country
+        changed = changed_presets(ctx, presets)
+        ctx.extra["presets_changed_since_last_full_grid"] = [p[0] for p in changed]
+        for p in changed[:4]:
+            for iso in isos:
+                jobs.append((iso, p[0], p[1]))
         # regression corpus first: the (country, preset) pairs that did not complete before the seaweed-pin repair (DESIGN.md §13.4 D16)
         byname = {p[0]: p for p in presets}
         for iso, name in CORPUS:
@@ -242,7 +265,7 @@ def correspondence(ctx):
 def yaml_driver_part(ctx):
     """the shipped entry point itself: src/scenarios/run_scenarios_from_yaml.run_scenarios_from_yaml on the shipped argentina.yaml (its own country and
     horizon; a seeded choice of its simulations in the quick tier), in web-interface mode (results returned and every table saved).  Every simulation
-    has to complete, and its percent fed has to be the one the same option set gives when the country is run directly."""
+    has to complete with a finite, non-negative percent fed (whether it equals the direct run's is C14's business and only counted here)."""
     import contextlib, io, glob, yaml
     import src.scenarios.run_scenarios_from_yaml as ry
     from src.scenarios.run_model_no_trade import ScenarioRunnerNoTrade
@@ -290,10 +313,61 @@ def yaml_driver_part(ctx):
         if len(pf_yaml) != 1 or pf_direct is None or not math.isfinite(pf_yaml[0]) or pf_yaml[0] < 0:
             ctx.violation("bad-result:yaml-driver:%s" % name, "argentina.yaml simulation %s returns %r through the YAML driver (direct run: %r)" % (name, pf_yaml, pf_direct), case)
         elif pf_yaml[0] != pf_direct:
-            ctx.violation("yaml-driver-differs:%s" % name, "argentina.yaml simulation %s: %r percent fed through run_scenarios_from_yaml (web-interface mode), %r when the same "
-                          "options are run directly" % (name, pf_yaml[0], pf_direct), case)
+            # not a clause of C16 (the run completes with a finite result); C14's check makes this comparison a violation (yaml_independence_part)
+            ctx.count("yaml-driver-result-differs-from-direct-run")
+            ctx.notes.append("argentina.yaml simulation %s: %r percent fed through run_scenarios_from_yaml (web-interface mode), %r when run directly" % (name, pf_yaml[0], pf_direct))
         ctx.case(("yaml-driver", name), nontrivial=True, sample=dict(case, percent_fed=pf_yaml[:1]))
         ctx.count("yaml-driver-simulations")
+
+
+def yaml_independence_part(ctx):
+    """(used by C14) two simulations of one YAML file through the shipped entry point: the first carries optional overrides, the second none -
+    the second must report what the same options give when run directly"""
+    import contextlib, io, glob, yaml
+    import src.scenarios.run_scenarios_from_yaml as ry
+    from src.scenarios.run_model_no_trade import ScenarioRunnerNoTrade
+    got = []
+    orig = ScenarioRunnerNoTrade.run_model_no_trade
+
+    def spy(self, *a, **k):
+        out = orig(self, *a, **k)
+        got.append((k.get("title"), dict(k.get("scenario_option") or {}), list(k.get("countries_list") or []), out))
+        return out
+    names = list(yaml.safe_load(open(os.path.join(ctx.repo, "scenarios", "argentina.yaml")))["simulations"])
+    # a file whose first simulation carries optional overrides and whose second carries none: nothing of the first may reach the second
+    base_name = names[0]
+    plain = {k: v for k, v in yaml.safe_load(open(os.path.join(ctx.repo, "scenarios", "argentina.yaml")))["simulations"][base_name].items()}
+    ov = dict(plain, CROP_PRODUCTION_MULTIPLIER=0.5, kg_meat_per_large_animal=350, meat_cattle_head=20000000)
+    cfg2 = {"settings": {"countries": "ARG", "NMONTHS": 48},
+            "simulations": {"with_overrides": dict(ov, title="verif_yaml_%d_ov" % os.getpid()), "plain": dict(plain, title="verif_yaml_%d_plain" % os.getpid())}}
+    got.clear()
+    ScenarioRunnerNoTrade.run_model_no_trade = spy
+    err = None
+    try:
+        with contextlib.redirect_stdout(io.StringIO()):
+            ry.run_scenarios_from_yaml(copy.deepcopy(cfg2), False, False, True)
+    except BaseException as e:  # noqa
+        if isinstance(e, KeyboardInterrupt):
+            raise
+        err = "%s: %s" % (type(e).__name__, str(e)[:200])
+    finally:
+        ScenarioRunnerNoTrade.run_model_no_trade = orig
+        for f in glob.glob(os.path.join(ctx.repo, "results", "verif_yaml_%d_*" % os.getpid())):
+            with contextlib.suppress(OSError):
+                os.remove(f)
+    case = {"driver": "run_scenarios_from_yaml", "simulations": ["with_overrides (CROP_PRODUCTION_MULTIPLIER, kg_meat_per_large_animal, meat_cattle_head)", "plain"], "country": "ARG"}
+    second = [g for g in got if g[0] == "verif_yaml_%d_plain" % os.getpid()]
+    o2 = {k: v for k, v in plain.items() if k != "title"}
+    o2["NMONTHS"] = 48
+    direct = pipeline.run_scenario("ARG", pipeline.options(**o2))
+    if not second or direct.result is None:
+        ctx.count("yaml-two-simulations-did-not-complete")
+    else:
+        pf2 = [float(r.percent_people_fed) for r in second[0][3][3].values()]
+        if len(pf2) != 1 or pf2[0] != float(direct.result.percent_people_fed):
+            ctx.violation("history-dependent-result:yaml-driver", "the second simulation of a file (no overrides) reports %r percent fed after a first simulation with optional "
+                          "overrides, %r when run directly" % (pf2, float(direct.result.percent_people_fed)), case)
+    ctx.case(("yaml-driver", "two-simulations"), nontrivial=True, sample=case)
 
 
 def search(ctx):
@@ -325,3 +399,15 @@ def replay(ctx, rep):
             judge(ctx, r)
             hits += ctx.violations[n0:]
     return bool(hits), hits[:3]
+
+
+
+if __name__ == "__main__":   # /venv/bin/python harness/props/c16.py --write-fingerprints   (after the whole grid has been run on this tree)
+    import sys
+    if "--write-fingerprints" in sys.argv:
+        repo = os.environ.get("VERIF_REPO", "/repo")
+        os.chdir(repo)
+        ps = yaml_presets(repo) + manuscript_presets(repo) + variation_presets()
+        os.makedirs(os.path.dirname(FINGERPRINTS), exist_ok=True)
+        json.dump({p[0]: fingerprint(p) for p in ps}, open(FINGERPRINTS, "w"), indent=1, sort_keys=True)
+        print("wrote", FINGERPRINTS, len(ps))
